@@ -65,3 +65,8 @@ Definition c10_case (ts : list txn) (eqa : acct) (sel : option (list (bool * lis
         && rows_carry_ok eqa src_sel (b_rows rep)
     end in
   ((if agree then 1 else 0) + (if spec_ok then 2 else 0) + (if c10_in_domain ps then 4 else 0))%N.
+
+(* the equity account name of the configuration (split at ':'), and whether Settings accepted
+   it with the equity export as a target. bit 1: accepted = eq_account_ok *)
+Definition c10_name_case (eqa : acct) (accepted : bool) : N :=
+  if Bool.eqb (eq_account_ok eqa) accepted then 1%N else 0%N.
